@@ -15,6 +15,8 @@ FUNCTIONS = [
     SQ + "add_write",
     SQ + "add_cte",
     SQ + "get_table_columns",
+    SQ + "_get_target_table",
+    SQ + "get_source_columns",
     ("sqllineage.core.holders.SubQueryLineageHolder._replace_wildcard", ["modeltypes", "config", "metadata", "holders", "holders_c13"]),
     ("sqllineage.core.holders.SQLLineageHolder._build_digraph", ["modeltypes", "config", "metadata", "holders"]),
 ] + [(M + c + m, MODELS) for c in ("Column.", "Table.", "SubQuery.", "Path.", "Schema.") for m in ("__eq__", "__hash__")]
